@@ -72,11 +72,11 @@ func posPreds() []gen.Expr {
 	var out []gen.Expr
 	pos := func() gen.Expr { return gen.F("position") }
 	last := func() gen.Expr { return gen.F("last") }
-	for _, n := range []float64{0, 1, 2, 3, 4} {
+	for _, n := range []float64{0, 1, 2, 3, 4, 5, 6} {
 		out = append(out, gen.N(n))
 	}
 	for _, op := range []string{"=", "!=", "<", "<=", ">", ">="} {
-		for _, n := range []float64{1, 2, 3} {
+		for _, n := range []float64{1, 2, 3, 5} {
 			out = append(out, gen.B(op, pos(), gen.N(n)), gen.B(op, gen.N(n), pos()))
 		}
 		out = append(out, gen.B(op, pos(), last()), gen.B(op, last(), pos()))
@@ -197,6 +197,8 @@ func c03Spaces(tier string) []*explore.Space {
 			hostSpace("Pos3xM2-3", "(F)[n] x M(2,3)", c3, func() []*doc.Tree { return uniM(2, 3) }, "C03"),
 			hostSpace("Pos4xM2-3", "positional child steps inside a predicate x M(2,3)", c4, func() []*doc.Tree { return uniM(2, 3) }, "C03"),
 			hostSpace("Pos4xT4", "positional child steps inside a predicate x T(<=4)", c4, func() []*doc.Tree { return uniT(4) }, "C03"),
+			hostSpace("Pos1xWide6", "prefix/child-step[positional] x one parent with 5..6 children", c1, func() []*doc.Tree { return uniWide(6) }, "C03"),
+			hostSpace("Pos3xWide6", "(F)[n] x one parent with 5..6 children", c3, func() []*doc.Tree { return uniWide(6) }, "C03"),
 			hostSpace("Pos3xT5", "(F)[n] x T(<=5)", c3, func() []*doc.Tree { return uniT(5) }, "C03"),
 		}
 	}
@@ -206,6 +208,7 @@ func c03Spaces(tier string) []*explore.Space {
 		hostSpace("Pos2xM2-2", "child-step[positional][boolean]{1,2} x M(2,2)", c2, func() []*doc.Tree { return uniM(2, 2) }, "C03"),
 		hostSpace("Pos3xM2-2", "(F)[n] x M(2,2)", c3, func() []*doc.Tree { return uniM(2, 2) }, "C03"),
 		hostSpace("Pos4xM2-2", "positional child steps inside a predicate x M(2,2)", c4, func() []*doc.Tree { return uniM(2, 2) }, "C03"),
+		hostSpace("Pos1/4xWide5", "fixed stratum (every 4th) of prefix/child-step[positional] x one parent with 5 children", strideCases(c1, 4), func() []*doc.Tree { return uniWide(5) }, "C03"),
 		hostSpace("Pos4/3xT3", "fixed stratum (every 3rd) of positional child steps inside a predicate x T(<=3)", strideCases(c4, 3), func() []*doc.Tree { return uniT(3) }, "C03"),
 		hostSpace("Pos3xT3", "(F)[n] x T(<=3)", c3, func() []*doc.Tree { return uniT(3) }, "C03"),
 	}
@@ -216,7 +219,7 @@ func init() {
 		ID: "C03", Level: "exploration",
 		Rule: "child-axis steps whose first predicate is positional ([n], position() op n in both operand orders, position() op last(), last(), last()-n), alone, after 18 kinds of prefix, and followed by one or two boolean predicates, plus (F)[n] for flat paths and single descendant steps F, are evaluated on every document of a multi-parent universe (fan-out differs between sibling parents) and of T(<=N) from every context node and compared as node sets with the reference (proximity position per parent; document order for (F)[n]); non-trivial = the positional predicate keeps a strict non-empty subset of the step's candidates; distinct = distinct expressions with a non-trivial case",
 		Assumptions:    []string{"hand-written reference evaluator", "lawful NodeNavigator", "bounded trees"},
-		Budget:         budget(55*time.Second, 15*time.Minute),
+		Budget:         budget(90*time.Second, 15*time.Minute),
 		MinRefOutcomes: 2,
 		Spaces:         c03Spaces,
 	})
